@@ -57,6 +57,9 @@ type expect struct {
 	clause string
 	full   bool     // answered for the whole subscription
 	asked  []string // otherwise: exactly these names (SotW: the added names; delta: the names the request subscribes to)
+	// delta: what the generator must be told (req.Delta): the request's subscribe set, its unsubscribes without `*`,
+	// the retained versions (generator-managed types only)
+	dsub, dunsub, dinit []string
 }
 
 // expectSotw classifies a state-of-the-world request and advances the history.
@@ -119,11 +122,17 @@ func (o *histOracle) expectDelta(t string, sub, unsub, init []string, nonce stri
 	subs.Delete("*")
 	unsubNamed := sets.New(unsub...).Delete("*")
 	narrowed := (len(subs) > 0 || len(unsubNamed) > 0) && !managedType(t)
+	var dinit []string
+	if managedType(t) {
+		dinit = init
+	}
 	answered := func(clause string) expect {
+		e := expect{respond: true, full: true, clause: clause}
 		if narrowed {
-			return expect{respond: true, asked: sets.SortedList(subs), clause: "subscription-change-generates-the-subscribed-names"}
+			e = expect{respond: true, asked: sets.SortedList(subs), clause: "subscription-change-generates-the-subscribed-names"}
 		}
-		return expect{respond: true, full: true, clause: clause}
+		e.dsub, e.dunsub, e.dinit = sets.SortedList(subs), sets.SortedList(unsubNamed), dinit
+		return e
 	}
 	if isErr && h.exists {
 		h.lastErr = *errMsg
@@ -176,7 +185,8 @@ func (o *histOracle) expectDelta(t string, sub, unsub, init []string, nonce stri
 		// a re-subscription of names already on record changes nothing.  /repo stays silent; the xDS delta protocol
 		// lets (asks) a server re-send a resource the client subscribes to again, so answering with exactly the
 		// re-subscribed names is accepted as well: an OBSERVATION of the code as it is, not a clause of the property
-		return expect{either: true, asked: sets.SortedList(subs), clause: "re-subscription-of-known-names(observation)"}
+		return expect{either: true, asked: sets.SortedList(subs), clause: "re-subscription-of-known-names(observation)",
+			dsub: sets.SortedList(subs), dunsub: sets.SortedList(unsubNamed), dinit: dinit}
 	}
 	return expect{clause: "ack-silent"}
 }
